@@ -39,7 +39,7 @@ VariantMax(enc, v, n, kind) ==
          (LET e == IF v.st.c = 0 THEN 0 ELSE v.st.b + 1
           IN  IF kind = "utf16" THEN n + 1 + e ELSE IF kind = "utf8" THEN n + 3 + e ELSE 3 * (n + e) + 3)
     [] f \in {"utf16be", "utf16le"} ->
-         (LET a == 1 + (IF v.st.a # 0 THEN 1 ELSE 0) + (IF v.st.b # 0 THEN 2 ELSE 0)
+         (LET a == 1 + (IF v.st.a # 0 THEN 1 ELSE 0) + (IF v.st.b # 0 \/ v.pp THEN 2 ELSE 0)      \* a pending BMP unit counts even when it is U+0000 (fix 6580834)
           IN  IF kind = "utf16" THEN ((n + a) \div 2) + 1 ELSE 3 * ((n + a) \div 2) + 1)
     [] OTHER -> 3 * n + 16          \* variants without a transcribed formula (not used in the MC configurations)
 
